@@ -35,7 +35,7 @@ def cases(tier, seed):
     for sc, c in common.add_algs(common.wide_scope(lvl),
                                  lambda c: common.wide_algs(c, lvl)):
         out.append((sc, dict(c, delay={"mode": "choice", "arity": 3})))
-    adv = base[::5] if tier != "thorough" else base[::2]
+    adv = base[::5] if tier != "thorough" else base[::6]
     for sc, c in adv:
         for alg in ({"kind": "advqueue"}, {"kind": "advbatch", "p": 2,
                                            "min": 1}):
@@ -55,10 +55,11 @@ def run(rep, tier, seed):
     cs = cases(tier, seed)
     budgets = ({"delay": 2, "adv": 2, "tie": 1} if tier == "thorough"
                else {"delay": 1, "adv": 1, "tie": 1})
-    if tier != "thorough":
+    if True:
+        every = 12 if tier != "thorough" else 2
         cs2 = []
         for k, (sc, c) in enumerate(cs):
-            if c.get("delay") and k % 8:
+            if c.get("delay") and k % every:
                 c = dict(c)
                 c.pop("delay")
             cs2.append((sc, c))
